@@ -4,57 +4,15 @@
   which exit status. Termination and crash-freedom of the stages themselves are decided by
   execution (harness/cmd/pvtool), not here.
 -/
+import PigeonVerif.Model.Tool
+
 namespace PV
 namespace Tool
-
-/-- what the stages of `main()` can report -/
-structure Run where
-  flagsParse : Bool        -- fs.Parse succeeded
-  help : Bool              -- -h / -help
-  nargs : Nat              -- positional arguments
-  inputOpens : Bool
-  parseOK : Bool           -- ParseReader returned no error (the grammar text is accepted)
-  entrypointsKnown : Bool  -- every non-empty -alternate-entrypoints name is a rule
-  noBuild : Bool           -- -x
-  buildOK : Bool           -- builder.BuildParser returned no error (e.g. no left recursion)
-  formatOK : Bool          -- imports.Process succeeded
-  writeOK : Bool
-  closeOutOK : Bool
-  closeInOK : Bool
-
-/-- the part of `main()` after the grammar was parsed and the entrypoints validated -/
-def exitBuild (r : Run) : Nat :=
-  if r.noBuild then (if r.closeInOK then 0 else 7)
-  else if !r.buildOK then 5
-  else if !r.formatOK then (if r.writeOK then 6 else 7)
-  else if !r.writeOK then 7
-  else if !r.closeOutOK then 8
-  else if !r.closeInOK then 7
-  else 0
-
-/-- the part after the input was opened -/
-def exitParse (r : Run) : Nat :=
-  if !r.parseOK then 3
-  else if !r.entrypointsKnown then 9
-  else exitBuild r
-
-/-- exit status of `main()` (0 = falls off the end) -/
-def exit (r : Run) : Nat :=
-  if !r.flagsParse then 6
-  else if r.help then 0
-  else if r.nargs > 1 then 1
-  else if !r.inputOpens then 2
-  else exitParse r
-
-/-- the grammar is rejected: it does not parse, names an unknown entrypoint, or (when a parser is
-    to be built) the builder or the formatter refuses it -/
-def rejected (r : Run) : Bool :=
-  !r.parseOK || !r.entrypointsKnown || (!r.noBuild && (!r.buildOK || !r.formatOK))
 
 theorem exitBuild_nonzero (r : Run) (h : r.noBuild = false) (h2 : (!r.buildOK || !r.formatOK) = true) :
     exitBuild r ≠ 0 := by
   unfold exitBuild
-  cases hb : r.buildOK <;> cases hf : r.formatOK <;> cases hw : r.writeOK <;> simp_all
+  cases ho : r.outOpens <;> cases hb : r.buildOK <;> cases hf : r.formatOK <;> cases hw : r.writeOK <;> simp_all
 
 theorem exitParse_nonzero (r : Run) (h : rejected r = true) : exitParse r ≠ 0 := by
   unfold exitParse
@@ -83,17 +41,17 @@ theorem C13_rejected_nonzero (r : Run) (hh : r.help = false) (h : rejected r = t
       · simp only [Bool.not_true, Bool.false_eq_true, if_false]
         exact exitParse_nonzero r h
 
-theorem exitBuild_set (r : Run) : exitBuild r ∈ [0, 5, 6, 7, 8] := by
+theorem exitBuild_set (r : Run) : exitBuild r ∈ [0, 4, 5, 6, 7, 8] := by
   unfold exitBuild
-  cases r.noBuild <;> cases r.buildOK <;> cases r.formatOK <;> cases r.writeOK <;> cases r.closeOutOK <;>
+  cases r.noBuild <;> cases r.outOpens <;> cases r.buildOK <;> cases r.formatOK <;> cases r.writeOK <;> cases r.closeOutOK <;>
     cases r.closeInOK <;> simp
 
 /-- the documented statuses are the only ones -/
-theorem C13_status_set (r : Run) : exit r ∈ [0, 1, 2, 3, 5, 6, 7, 8, 9] := by
+theorem C13_status_set (r : Run) : exit r ∈ [0, 1, 2, 3, 4, 5, 6, 7, 8, 9] := by
   have hb := exitBuild_set r
   unfold exit exitParse
   cases r.flagsParse <;> cases r.help <;> cases r.inputOpens <;> cases r.parseOK <;> cases r.entrypointsKnown <;>
-    simp <;> (try split) <;> simp_all <;> rcases hb with h | h | h | h | h <;> simp_all
+    simp <;> (try split) <;> simp_all <;> rcases hb with h | h | h | h | h | h <;> simp_all
 
 end Tool
 end PV
